@@ -46,7 +46,7 @@ _built = set()
 
 def build_harness(bins):
     """Incremental cargo build of the harness against /repo's current working tree."""
-    todo = [b for b in bins if b not in _built]
+    todo = [b for b in bins if b not in _built and not b.startswith("/")]      # absolute paths are script drivers, not cargo bins
     if not todo:
         return
     cmd = ["cargo", "build", "--offline", "-q"]
@@ -65,7 +65,23 @@ def build_harness(bins):
 
 
 def hbin(name):
-    return os.path.join(TARGET, name)
+    return name if name.startswith("/") else os.path.join(TARGET, name)
+
+
+def build_python_extension():
+    """Build the Python extension from /repo's working tree (hooks on, like every other build of the checks) and put it next to
+    the driver as vibesql.so."""
+    tdir = os.path.join(HARNESS, "target", "py")
+    t0 = time.time()
+    env = {"CARGO_NET_OFFLINE": "true", "RUSTC_WRAPPER": "", "RUSTFLAGS": "--cfg vibesql_verif --check-cfg cfg(vibesql_verif)"}
+    r = sh(["cargo", "build", "--offline", "-q", "--manifest-path", "/repo/Cargo.toml", "-p", "vibesql-python-bindings", "--target-dir", tdir],
+           cwd=HARNESS, env=env, timeout=3600, check=False)
+    if r.returncode != 0:
+        raise ToolError("python extension build failed:\n" + (r.stdout or "")[-3000:])
+    ext = os.path.join(HARNESS, "py", "ext")
+    os.makedirs(ext, exist_ok=True)
+    shutil.copyfile(os.path.join(tdir, "debug", "libvibesql.so"), os.path.join(ext, "vibesql.so"))
+    log("[build] python extension in %.1fs" % (time.time() - t0))
 
 
 # ------------------------------------------------------------------ TLC
